@@ -416,6 +416,8 @@ fn truncate_json(v: serde_json::Value, budget: usize) -> serde_json::Value {
     }
 }
 
+pub const QUICK_BOOST: u32 = 8;
+
 impl Ctx {
     pub fn new(property: &str, tier: Tier, seed: u64) -> Ctx {
         let threads = std::env::var("VERIF_THREADS")
@@ -448,7 +450,9 @@ impl Ctx {
 
     /// choose a case count by tier
     pub fn n(&self, quick: u32, thorough: u32) -> u32 {
-        let n = if self.quick() { quick } else { thorough };
+        // the quick tier runs QUICK_BOOST times the per-property base count: still seconds per
+        // property on 16 threads, and fixed work (no time quota)
+        let n = if self.quick() { quick.saturating_mul(QUICK_BOOST).min(thorough) } else { thorough };
         ((n as f64 * self.scale) as u32).max(1)
     }
 
